@@ -13,6 +13,9 @@ Import ListNotations.
 
 Inductive read_type := RTLeader | RTFollower | RTMixed | RTLearner | RTPreferLeader.
 Inductive liveness := Reachable | Unreachable | Unknown.
+(* tikvrpc.Request.StoreTp: which kind of node serves the request (zero value: TiKV) *)
+Inductive store_tp := TpTiKV | TpTiFlash | TpTiDB.
+Definition is_tidb (t : store_tp) : bool := match t with TpTiDB => true | _ => false end.
 
 Definition rt_eqb (a b : read_type) : bool :=
   match a, b with
@@ -135,7 +138,8 @@ Definition set_rearmed_v (v : list nat) (s : state) : state := mkState (reps s) 
 Record cfg := mkCfg {
   c_rt : read_type; c_stale : bool; c_read : bool; c_has_labels : bool; c_leader_only : bool;
   c_thr : bool; c_short_to : bool; c_max_sleep : N; c_val : bool; c_reps : list rep;
-  c_fw : bool (* RegionCache.enableForwarding *) }.
+  c_fw : bool (* RegionCache.enableForwarding *);
+  c_store_tp : store_tp (* req.StoreTp; only the validation gate depends on it: the retry loop below is the TiKV one *) }.
 
 Definition dummy_rep : rep := mkRep max_replica_attempt false false false false false true Unreachable false false false false false false.
 Definition rep_at (s : state) (i : nat) : rep := nth i (reps s) dummy_rep.
@@ -479,9 +483,12 @@ Definition init_state (c : cfg) (rands : list nat) (sleeps : list N) : state :=
           (c_rt c) (c_read c && negb (c_stale c) && negb (rt_eqb (c_rt c) RTLeader)) (c_read c && c_stale c) false
           0%N 0%N rands sleeps None (map (fun _ => 0) (c_reps c)).
 
+(* RegionRequestSender.validateReadTS: requests served by a TiDB node are exempt, every other read (TiKV, TiFlash) is validated *)
+Definition validation_refuses (c : cfg) : bool := c_read c && negb (c_val c) && negb (is_tidb (c_store_tp c)).
+
 (* SendReqCtx: validateReadTS first (reads only), then the loop *)
 Definition run_gen (fixed : bool) (c : cfg) (script : list outcome) (rands : list nat) (sleeps : list N) : list event * result :=
-  if c_read c && negb (c_val c) then ([], RError)
+  if validation_refuses c then ([], RError)
   else loop_gen fixed c script (init_state c rands sleeps) None 0.
 (* the code as it is *)
 Definition run := run_gen true.
